@@ -1,0 +1,137 @@
+//go:build verif
+
+package harfbuzz
+
+import (
+	"github.com/go-text/typesetting/font"
+	"github.com/go-text/typesetting/font/opentype/tables"
+)
+
+// Hooks for the verification harness (property C18, window-local rule engines, second part):
+// the real GSUB multiple substitution (applySubsSequence: replacement, multiplication, deletion)
+// and the real contextual / chained contextual substitution of format 3 with nested single
+// substitutions, each driven through the real lookup loop (otMap.apply -> applyString ->
+// applyForward) on a real Buffer, with synthetic tables built from the library's table types.
+// Nothing here changes behaviour; the file is only compiled with -tags verif.
+
+// VerifMultiLookup is a synthetic GSUB lookup of type 2 (MultipleSubs) with one subtable.
+type VerifMultiLookup struct {
+	Flag uint16 // lookup flag (otIgnoreMarks ...)
+	Mask uint32
+	Seqs []VerifSequence // any order; the first entry of a glyph wins
+}
+
+// VerifSequence : Glyph is replaced by Seq (possibly empty: deletion)
+type VerifSequence struct {
+	Glyph int
+	Seq   []int
+}
+
+func verifMultiSubtable(l VerifMultiLookup) tables.GSUBLookup {
+	var firsts []int
+	for _, s := range l.Seqs {
+		firsts = append(firsts, s.Glyph)
+	}
+	cov, index := verifCoverage(firsts)
+	seqs := make([]tables.Sequence, len(cov.Glyphs))
+	done := map[int]bool{}
+	for _, s := range l.Seqs {
+		if done[s.Glyph] {
+			continue
+		}
+		done[s.Glyph] = true
+		ids := make([]tables.GlyphID, len(s.Seq))
+		for i, g := range s.Seq {
+			ids[i] = tables.GlyphID(g)
+		}
+		seqs[index[s.Glyph]] = tables.Sequence{SubstituteGlyphIDs: ids}
+	}
+	return tables.MultipleSubs{Coverage: cov, Sequences: seqs}
+}
+
+// VerifApplyGSUBMulti applies the MultipleSubs lookups, in order, through otMap.apply (one stage).
+func VerifApplyGSUBMulti(in VerifEngineBuf, lookups []VerifMultiLookup) (out VerifEngineBuf, panicMsg string) {
+	defer verifRecover(&panicMsg)
+	fnt := verifEngineFont(nil)
+	var m otMap
+	accels := make([]otLayoutLookupAccelerator, len(lookups))
+	for i, l := range lookups {
+		accels[i].init(lookupGSUB(font.GSUBLookup{LookupOptions: font.LookupOptions{Flag: l.Flag},
+			Subtables: []tables.GSUBLookup{verifMultiSubtable(l)}}))
+		m.lookups[0] = append(m.lookups[0], lookupMap{index: uint16(i), autoZWNJ: true, autoZWJ: true, mask: l.Mask})
+	}
+	m.stages[0] = []stageMap{{lastLookup: len(lookups)}}
+	b := verifEngineBuffer(in)
+	m.apply(otProxy{otProxyMeta: proxyGSUB, accels: accels}, nil, fnt, b)
+	return verifEngineState(b, in), ""
+}
+
+// VerifCtx3Lookup is a synthetic GSUB contextual lookup of format 3 (coverage based) with one subtable:
+// ChainedContextualSubs3 when Chained is set (Back: backtrack coverages, nearest glyph first; In: input
+// coverages, the first one covering the current glyph; Ahead: lookahead coverages), else ContextualSubs3
+// (In only).  Recs are the nested lookups, in design order: a single substitution applied at a
+// sequence index of the input.
+type VerifCtx3Lookup struct {
+	Flag    uint16
+	Mask    uint32
+	Chained bool
+	Back    [][]int
+	In      [][]int
+	Ahead   [][]int
+	Recs    []VerifCtxRec
+}
+
+// VerifCtxRec : the single substitution Singles (glyph, substitute; the first entry of a glyph wins)
+// applied at input position SeqIndex
+type VerifCtxRec struct {
+	SeqIndex int
+	Singles  [][2]int
+}
+
+func verifCoverages(sets [][]int) []tables.Coverage {
+	out := make([]tables.Coverage, len(sets))
+	for i, s := range sets {
+		cov, _ := verifCoverage(s)
+		out[i] = cov
+	}
+	return out
+}
+
+// VerifApplyGSUBContext3 applies the contextual lookups, in order, through otMap.apply (one stage).
+// The nested single substitutions are real lookups of the font's GSUB lookup list (after the
+// contextual ones), reached through c.recurse -> applyRecurseGSUB -> applyRecurseLookup.
+func VerifApplyGSUBContext3(in VerifEngineBuf, lookups []VerifCtx3Lookup) (out VerifEngineBuf, panicMsg string) {
+	defer verifRecover(&panicMsg)
+	all := make([]font.GSUBLookup, len(lookups))
+	for i, l := range lookups {
+		var recs []tables.SequenceLookupRecord
+		for _, r := range l.Recs {
+			nested := font.GSUBLookup{Subtables: []tables.GSUBLookup{verifGSUBSubtable(VerifGSUBLookup{Singles: r.Singles})}}
+			recs = append(recs, tables.SequenceLookupRecord{SequenceIndex: uint16(r.SeqIndex), LookupListIndex: uint16(len(all))})
+			all = append(all, nested)
+		}
+		var sub tables.GSUBLookup
+		if l.Chained {
+			sub = tables.ChainedContextualSubs{Data: tables.ChainedContextualSubs3{
+				BacktrackCoverages: verifCoverages(l.Back), InputCoverages: verifCoverages(l.In),
+				LookaheadCoverages: verifCoverages(l.Ahead), SeqLookupRecords: recs,
+			}}
+		} else {
+			sub = tables.ContextualSubs{Data: tables.ContextualSubs3{Coverages: verifCoverages(l.In), SeqLookupRecords: recs}}
+		}
+		all[i] = font.GSUBLookup{LookupOptions: font.LookupOptions{Flag: l.Flag}, Subtables: []tables.GSUBLookup{sub}}
+	}
+	fnt := verifEngineFont(&font.Font{GSUB: font.GSUB{Lookups: all}})
+	var m otMap
+	accels := make([]otLayoutLookupAccelerator, len(all))
+	for i := range all {
+		accels[i].init(lookupGSUB(all[i]))
+	}
+	for i, l := range lookups {
+		m.lookups[0] = append(m.lookups[0], lookupMap{index: uint16(i), autoZWNJ: true, autoZWJ: true, mask: l.Mask})
+	}
+	m.stages[0] = []stageMap{{lastLookup: len(lookups)}}
+	b := verifEngineBuffer(in)
+	m.apply(otProxy{otProxyMeta: proxyGSUB, accels: accels}, nil, fnt, b)
+	return verifEngineState(b, in), ""
+}
